@@ -219,17 +219,29 @@ Theorem C20_table_nonvacuous :
 Proof. exact table_nonvacuous. Qed.
 Print Assumptions C20_table_nonvacuous.
 
-(* sync_properties runs iff both files exist *)
+(* sync_properties runs iff the parameter lists pair up and both files exist *)
 Theorem C20_sync_properties_run_iff :
-    forall i o : bool, decide_sync_properties i o = Run <-> i = true /\ o = true.
+    forall c i o : bool, decide_sync_properties c i o = Run <-> c = true /\ i = true /\ o = true.
 Proof. exact decide_sync_properties_run_iff. Qed.
 Print Assumptions C20_sync_properties_run_iff.
 
-(* and is refused otherwise *)
+(* and is refused (usage error, nothing touched) otherwise *)
 Theorem C20_sync_properties_reject_iff :
-    forall i o : bool, decide_sync_properties i o = Reject <-> i = false \/ o = false.
+    forall c i o : bool, decide_sync_properties c i o = Reject <-> c = false \/ i = false \/ o = false.
 Proof. exact decide_sync_properties_reject_iff. Qed.
 Print Assumptions C20_sync_properties_reject_iff.
+
+(* it never ends in an exception at this stage, and an accepted invocation pairs every --input-param with an
+   --output-param (regression of the /repo fix: a mismatch used to reach a bare assert and a traceback) *)
+Theorem C20_sync_properties_never_raises :
+    forall c i o e, decide_sync_properties c i o <> Raise e.
+Proof. exact decide_sync_properties_never_raises. Qed.
+Print Assumptions C20_sync_properties_never_raises.
+
+Theorem C20_sync_properties_accepted_pairs_up :
+    forall c i o : bool, decide_sync_properties c i o = Run -> c = true.
+Proof. exact decide_sync_properties_run_counts. Qed.
+Print Assumptions C20_sync_properties_accepted_pairs_up.
 
 (* gen runs iff the output does not exist *)
 Theorem C20_gen_run_iff :
